@@ -71,12 +71,15 @@ def mutants(log, log2=None):
     rows.append("")
     rows.append("%d of %d seeded mutants are caught by the quick tier of the check of their property (sweep of the "
                 "final tree, VERIF_SEED=1). %d of them were missed by the first version of the check; the last "
-                "column names what was added." % (caught, total, len(STRENGTHENED)))
+                "column names what was added." % (caught, total, len([k for k in STRENGTHENED if os.path.isdir(
+                    os.path.join(HERE, "seeded", k))])))
     if second:
         n2 = sum(1 for v in second.values() if v == "caught")
         rows.append("")
-        rows.append("Column 'seed 2': the same sweep with VERIF_SEED=2 (%d of %d caught; an empty cell means the "
-                    "mutant was not part of that sweep)." % (n2, len(second)))
+        rows.append("Column 'seed 2': the same sweep with VERIF_SEED=2 (%d of %d caught). The seed-2 results of the "
+                    "mutants of the first five rounds were taken a few commits before the final tree (one miss "
+                    "there, C20-r2m1, led to the last generator change and was re-run), those of the later "
+                    "mutants on the final tree. Both logs are kept in `seeded_results/`." % (n2, len(second)))
     return "\n".join(rows)
 
 
